@@ -72,7 +72,8 @@ def snap(env, x):
 
 # ---------------------------------------------------------------- caller-supplied arrays
 
-def mk_input_alias(kind, tier='quick'):
+def mk_input_alias(kind, tier='quick', readonly_view=False):
+    # readonly_view: the caller passes a READ-ONLY VIEW of a buffer it can still write (finding F17): isolated in its own condition
     def body(env, w0, w1, view0, pos, val):
         sf = env.sf
         from static_frame.core.type_blocks import TypeBlocks
@@ -114,8 +115,8 @@ def mk_input_alias(kind, tier='quick'):
                 wrote.append(False)
         after = snap(env, c) if kind != 'type_blocks' else env.obs(c.values.tolist())
         return [ro, after, wrote[1]], [True, before, True]
-    return Cond(f'input_arrays_{kind}', [('w0', 'bool'), ('w1', 'bool'), ('view0', 'bool'), ('pos', 'int'), ('val', 'int')], body,
-            ranges={'pos': (0, 2)},
+    return Cond(f'input_arrays_{kind}' + ('_readonly_view' if readonly_view else ''), [('w0', 'bool'), ('w1', 'bool'), ('view0', 'bool'), ('pos', 'int'), ('val', 'int')], body,
+            ranges={'pos': (0, 2)}, pre=(['view0 and not w0'] if readonly_view else ['not (view0 and not w0)']),
             functions=['immutable_filter'],
             bounds='two caller-held int64 arrays (1-D of 3, possibly a view of a larger buffer, and 2-D 3x2); writeable flags and view status symbolic; caller then writes an UNBOUNDED symbolic value at a symbolic position through every handle it holds',
             route=f'{kind} built from caller arrays: container arrays read-only, later caller writes invisible', tier=tier)
@@ -123,6 +124,7 @@ def mk_input_alias(kind, tier='quick'):
 
 for _k in ('type_blocks', 'frame', 'series', 'index', 'frame_items', 'frame_go_setitem'):
     _add(mk_input_alias(_k))
+_add(mk_input_alias('series', readonly_view=True))
 
 
 # ---------------------------------------------------------------- results of operations are read-only, source unchanged
@@ -218,18 +220,34 @@ def body_copy(env, v, how):
     idx = f.index
     out, exp = [], []
     for x in (f, s, idx):
-        if how == 0:
-            y = copy.deepcopy(x)
-        elif how == 1:
-            y = pickle.loads(pickle.dumps(x))
-        else:
-            y = copy.copy(x)
+        y = copy.deepcopy(x) if how else copy.copy(x)
         out.append([snap(env, y), all_readonly(env, y), all_readonly(env, x)])
         exp.append([snap(env, x), True, True])
     return out, exp
 
 
-_add(Cond('deepcopy_pickle_copy', [('v', 'int'), ('how', 'int')], body_copy, ranges={'how': (0, 2)},
+_add(Cond('deepcopy_copy', [('v', 'int'), ('how', 'bool')], body_copy,
         functions=['array_deepcopy'],
-        bounds='Frame / Series / Index with one UNBOUNDED symbolic cell; deepcopy, pickle round trip (pickle of the model arrays: state comes back as fresh arrays, then the real __setstate__ runs) and copy',
-        route='copy.deepcopy / pickle.loads(dumps) / copy.copy: equal content, every array read-only', timeout=200))
+        bounds='Frame / Series / Index with one UNBOUNDED symbolic cell; copy.deepcopy and copy.copy (symbolic choice)',
+        route='copy.deepcopy / copy.copy: equal content, every array read-only', timeout=200))
+
+
+def body_pickle(env, k):
+    """Pickle is C: the containers are concrete here; the state comes back with fresh WRITEABLE arrays
+    (NumPy does not pickle the flag) and the real __setstate__ methods must freeze them again."""
+    sf = env.sf
+    f = mk_frame(env, LQ)
+    kinds = [lambda: f, lambda: f['b'], lambda: f.index, lambda: sf.IndexGO((1, 2, 3)),
+             lambda: sf.IndexHierarchy.from_labels([(1, 2), (1, 3)]), lambda: f.to_frame_go(), lambda: sf.Series(env.array([1, 2], 'int64'), index=sf.IndexHierarchy.from_labels([(1, 2), (1, 3)]))]
+    x = None
+    for i, mk_ in enumerate(kinds):
+        if k == i:
+            x = mk_()
+    y = pickle.loads(pickle.dumps(x))
+    return [snap(env, y), all_readonly(env, y), all_readonly(env, x)], [snap(env, x), True, True]
+
+
+_add(Cond('pickle_roundtrip', [('k', 'int')], body_pickle, ranges={'k': (0, 6)},
+        functions=['Index.__setstate__', 'TypeBlocks.__setstate__'],
+        bounds='Frame / Series / Index / IndexGO / IndexHierarchy / FrameGO / hierarchical Series (container kind chosen by a symbolic index), concrete cells',
+        route='pickle.loads(pickle.dumps(x)): equal content and every array read-only again', timeout=200))
